@@ -159,3 +159,22 @@ prop("C18", "thread safety: no hidden shared state; read-only objects may be sha
      BASE + ["Api", "ProofsApiErr"],
      [(AE, "readonly_same_world"), (AE, "step_respects_weq"), (AE, "distinct_objects_commute"),
       (AE, "interleaving_independent")])
+
+AR = "ProofsArduino.v"; TL = "ProofsTools.v"
+prop("C19", "the Arduino port computes the same ciphers as the C library",
+     BASE + ["ModelArduino", "ProofsSkinny", "ProofsMantis", "ProofsCtr", "ProofsArduino"],
+     [(AR, "a128_plain_equiv"), (AR, "a64_plain_equiv"), (AR, "a128_set_key_wrong_length"), (AR, "a64_set_key_wrong_length"),
+      (AR, "a128_tweaked_equiv"), (AR, "a64_tweaked_equiv"),
+      (AR, "a128_tweak_history_independent"), (AR, "a64_tweak_history_independent"),
+      (AR, "am_equiv"), (AR, "am_set_tweak_equiv"), (AR, "am_wrong_lengths"), (AR, "am_swap_crypt_equiv"),
+      (AR, "actr_refinement"), (AR, "actr_matches_c_ctr"), (AR, "actr_inc_spec")])
+prop("C20", "example tools: file encryption matches the library and round-trips",
+     BASE + ["Api", "ModelTools", "ProofsSkinny", "ProofsCtr", "ProofsApiCtr", "ProofsTools"],
+     [(TL, "tool_ctr128_spec"), (TL, "tool_ctr128_length"), (TL, "tool_ctr128_involution"), (TL, "tool_ctr128_backend_independent"),
+      (TL, "tool_ctr128_invalid"),
+      (TL, "tool_ctr64_spec"), (TL, "tool_ctr64_length"), (TL, "tool_ctr64_involution"), (TL, "tool_ctr64_backend_independent"),
+      (TL, "tool_ctr64_invalid"),
+      (TL, "tool_ecb128_spec"), (TL, "tool_ecb128_roundtrip"), (TL, "tool_ecb128_invalid"),
+      (TL, "tool_ecb64_spec"), (TL, "tool_ecb64_roundtrip"), (TL, "tool_ecb64_invalid"),
+      (TL, "tool_tweak128_spec"), (TL, "tool_tweak128_roundtrip"), (TL, "tool_tweak128_invalid"),
+      (TL, "tool_tweak64_spec"), (TL, "tool_tweak64_roundtrip"), (TL, "tool_tweak64_invalid"), (TL, "io_chunks_concat")])
